@@ -91,7 +91,11 @@ class Spec:
             w = [(what) for (tgt, isarg, what) in rowgen.WRITES if isarg]
             return r, w, a
 
+        self.problems = []
         for ctx, (kind, res) in explore(body):
+            if kind == "unsupported":
+                self.problems.append(repr(res))
+                continue
             if kind == "exc":
                 out.append(dict(pc=list(ctx.pc), ax=list(ctx.axioms), exc=res))
                 continue
@@ -101,6 +105,12 @@ class Spec:
                 continue
             out.append(dict(pc=list(ctx.pc), ax=list(ctx.axioms), out=[asreal(t) for t in r.blocks[0]], writes=w, args=a))
         return out
+
+
+def report_problems(rep, sp, label, fnl):
+    """paths on which the real code left the vocabulary of the shim: undecided obligations (never a violation, never silently dropped)"""
+    for i, msg in enumerate(getattr(sp, "problems", []) or []):
+        rep.obligation(f"{label}.path-outside-the-verified-subset[{i}]", {"status": "unknown", "backend": "symex", "time_s": 0, "reason": msg[:200]}, fnl, "post")
 
 
 def col(a, name, i=None):
